@@ -131,8 +131,8 @@ REJ_ENS = {
     "C02:evaluation-order": "all(good()[k] < good()[k + 1] for k in range(len(good()) - 1))",
     "C02:at-most-max": "len(good()) <= max(K(), 0)",
     "C02:first-accepted-kept": "all(implies(acc(i) and len(good()) >= 1 and i <= good()[len(good()) - 1], "
-                               "any(good()[k] == i for k in range(len(good())))) for i in range(N()))",
-    "C02:all-accepted-kept-unless-truncated": "implies(len(good()) < K(), all(implies(acc(i), any(good()[k] == i for k in range(len(good())))) "
+                               "0 <= wit(good(), i) and wit(good(), i) < len(good()) and good()[wit(good(), i)] == i) for i in range(N()))",
+    "C02:all-accepted-kept-unless-truncated": "implies(len(good()) < K(), all(implies(acc(i), 0 <= wit(good(), i) and wit(good(), i) < len(good()) and good()[wit(good(), i)] == i) "
                                               "for i in range(N())))",
     "C02:rows-unaltered": "all(view3(S().packed)[k, j, c] == prior_samples_batch[good()[k], c] "
                           "for k in range(len(good())) for j in range(n_linear_samples) for c in range(5))",
@@ -202,7 +202,8 @@ IT_DEFS = {
     "E": ([], "rng_event(-2).size"),
     "lls": ([], "lls_of(prior_samples_batch[0:E()])"),
     "acc": (["i"], "exp_(lls()[i] - amax(lls())) > uu()[i]"),
-    "good": ([], "src_idx(result.rows, prior_samples_batch)"),
+    "full": ([], "src_idx(result.rows, prior_samples_batch)"),
+    "good": ([], "where_part(result.rows)"),
     "first_batch": ([], "growth_factor * n_requested_samples if init_batch_size is None else init_batch_size"),
 }
 IT_INV = {
@@ -221,11 +222,12 @@ IT_ENS = {
     "C14:evaluation-order": "all(good()[k] < good()[k + 1] for k in range(len(good()) - 1))",
     "C14:at-most-requested": "len(good()) <= n_requested_samples",
     "C14:first-accepted-kept": "all(implies(acc(i) and len(good()) >= 1 and i <= good()[len(good()) - 1], "
-                               "any(good()[k] == i for k in range(len(good())))) for i in range(E()))",
+                               "0 <= wit(good(), i) and wit(good(), i) < len(good()) and good()[wit(good(), i)] == i) for i in range(E()))",
     "C14:all-accepted-kept-unless-truncated": "implies(len(good()) < n_requested_samples, all(implies(acc(i), "
-                                              "any(good()[k] == i for k in range(len(good())))) for i in range(E())))",
-    "C14:rows-unaltered": "all(view3(result.packed)[k, j, c] == prior_samples_batch[good()[k], c] "
-                          "for k in range(len(good())) for j in range(n_linear_samples) for c in range(5))",
+                                              "0 <= wit(good(), i) and wit(good(), i) < len(good()) and good()[wit(good(), i)] == i) for i in range(E())))",
+    "C14:returned-row-is-the-evaluated-one": "len(full()) == len(good()) and all(full()[k] == good()[k] for k in range(len(good())))",
+    "C14:rows-unaltered": "all(view3(result.packed)[k, j, c] == prior_samples_batch[full()[k], c] "
+                          "for k in range(len(full())) for j in range(n_linear_samples) for c in range(5))",
     "C14:row-count": "view3(result.packed).shape[0] == len(good()) and view3(result.packed).shape[1] == n_linear_samples",
     "C14:library-big-enough-on-return": "first_batch() <= NT()",
     "C10:only-handed-generator": "all(rng_event(k).gen == 'rng' for k in range(n_rng_events()))",
@@ -252,4 +254,213 @@ iterative_inmem = [
              cases=[{"_name": f"ln_prior=arr,init={i}", "ln_prior": lnprior_param, "init_batch_size": i} for i in ("none", "pos")],
              requires=["len(prior_samples_batch) >= 1", "len(ln_prior) == len(prior_samples_batch)"],
              ensures=IT_ENS_LNP, invariants={1: IT_INV}, defs=IT_DEFS),
+]
+
+
+# =============================================================================================================
+# file-cache path
+from .filemodel import file_param, samples_lib_param  # noqa: E402
+
+
+def pool_param(ex, path, name):
+    return Obj("pool", {"size": z3.Int("pool.size")}, ident="pool")
+
+
+def _lls_from_file(f, idx=None, n=None):
+    packed = f.fields["packed"]
+    if idx is not None:
+        a = Arr([idx.shape[0]], lambda k: ll_of_rows(packed).at(idx.at(k)), "real", "lls")
+        a.facts = list(getattr(idx, "facts", []))
+        return a
+    return Arr([n], lambda k: ll_of_rows(packed).at(k), "real", "lls")
+
+
+def _res_ll_helper(ex, path, bound, node):
+    f = bound["prior_samples_file"]
+    idx = bound.get("samples_idx")
+    npri = bound.get("n_prior_samples")
+    if idx is not None:
+        return _lls_from_file(f, idx=idx)
+    return _lls_from_file(f, n=f.fields["nrows"] if npri is None else npri)
+
+
+# contract of the *decorated* marginal_ln_likelihood_helper as seen by callers that pass a file name
+ll_helper = Contract(
+    QM + "marginal_ln_likelihood_helper", "C05",
+    requires=["not (n_prior_samples is not None and samples_idx is not None)",
+              "samples_idx is None or all(0 <= samples_idx[k] and samples_idx[k] < prior_samples_file.nrows for k in range(len(samples_idx)))",
+              "n_prior_samples is None or (0 <= n_prior_samples and n_prior_samples <= prior_samples_file.nrows)"],
+    ensures={"len": "len(result) == (len(samples_idx) if samples_idx is not None else "
+                    "(prior_samples_file.nrows if n_prior_samples is None else n_prior_samples))"},
+    result=_res_ll_helper)
+
+
+def _res_full_file(ex, path, bound, node):
+    f, idx, rng, helper = bound["prior_samples_file"], bound["samples_idx"], bound["rng"], bound["joker_helper"]
+    nlin = bound.get("n_linear_samples", 1)
+    rows = f.fields["packed"]
+    from jvc.symexec import arr_index
+    rows_g = arr_index(rows, (idx,))
+    npars = fresh_int("n_pars")
+    path.assume(npars >= 7)
+    packed = reshaped_from_3d(fresh_arr("packed3", 3, "real", [rows_g.shape[0], nlin, npars]), "packed")
+    trace(path).append({"gen": rng.ident if isinstance(rng, Obj) else "<not a generator>", "kind": "mvn-batch",
+                        "size": rows_g.shape[0], "value": packed, "line": node.lineno})
+    return samples_obj(rows_g, nlin, helper, {"packed": packed, "units": helper.fields["internal_units"],
+                                              "t_ref": helper.fields["data"].fields["t_ref"],
+                                              "poly_trend": helper.fields["prior"].fields["poly_trend"],
+                                              "n_offsets": helper.fields["prior"].fields["n_offsets"]})
+
+
+full_file = Contract(
+    QM + "make_full_samples", "C02",
+    requires=["all(0 <= samples_idx[k] and samples_idx[k] < prior_samples_file.nrows for k in range(len(samples_idx)))"],
+    ensures={"C02:rows-unaltered": "all(view3(result.packed)[n, j, c] == prior_samples_file.packed[samples_idx[n], c] "
+                                   "for n in range(len(samples_idx)) for j in range(n_linear_samples) for c in range(5))"},
+    result=_res_full_file)
+
+FILE_CALLEES = {
+    QM + "marginal_ln_likelihood_helper": ll_helper,
+    QM + "make_full_samples": full_file,
+}
+
+# ---- rejection_sample_helper --------------------------------------------------------------------------------------
+# ghost vocabulary: NE = number of evaluated rows; ev(k) = library row evaluated k-th; uu = the acceptance draw;
+# pick = positions (in evaluation order) of the returned rows; full = library rows of the returned samples
+FREJ_DEFS = {
+    "F": ([], "prior_samples_file"),
+    "NE": ([], "F().nrows if n_prior_samples is None else n_prior_samples"),
+    "ue": ([], "rng_event(1) if randomize_prior_order else rng_event(0)"),
+    "uu": ([], "ue().value"),
+    "ev": (["k"], "rng_event(0).value[k] if randomize_prior_order else k"),
+    "ll": (["k"], "LL(F().packed, ev(k))"),
+    "lls": ([], "ev_lls(F().packed, rng_event(0).value if randomize_prior_order else None, NE())"),
+    "acc": (["k"], "exp_(lls()[k] - amax(lls())) > uu()[k]"),
+    "S": ([], "result[0] if return_all_logprobs else result"),
+    "full": ([], "src_idx(S().rows, F().packed)"),
+    # positions, in evaluation order, of the returned rows
+    "pick": ([], "where_part(S().rows)"),
+    "K": ([], "NE() if max_posterior_samples is None else max_posterior_samples"),
+}
+FREJ_ENS = {
+    "C02:shuffle-is-a-choice-without-replacement": "implies(randomize_prior_order, rng_event(0).kind == 'choice' and rng_event(0).gen == 'rng' "
+                                                   "and rng_event(0).size == NE() and rng_event(0).N == F().nrows)",
+    "C02:draw-is-uniform-NE": "ue().kind == 'uniform' and ue().gen == 'rng' and ue().size == NE()",
+    "C02:returned-row-is-the-evaluated-one": "len(pick()) == len(full()) and all(full()[r] == ev(pick()[r]) for r in range(len(full())))",
+    "C02:accepted-only": "all(acc(pick()[r]) for r in range(len(pick())))",
+    "C02:in-range": "all(0 <= pick()[r] and pick()[r] < NE() for r in range(len(pick())))",
+    "C02:evaluation-order": "all(pick()[r] < pick()[r + 1] for r in range(len(pick()) - 1))",
+    "C02:at-most-max": "len(pick()) <= max(K(), 0)",
+    "C02:first-accepted-kept": "all(implies(acc(k) and len(pick()) >= 1 and k <= pick()[len(pick()) - 1], "
+                               "0 <= wit(pick(), k) and wit(pick(), k) < len(pick()) and pick()[wit(pick(), k)] == k) for k in range(NE()))",
+    "C02:all-accepted-kept-unless-truncated": "implies(len(pick()) < K(), all(implies(acc(k), 0 <= wit(pick(), k) and wit(pick(), k) < len(pick()) and pick()[wit(pick(), k)] == k) "
+                                              "for k in range(NE())))",
+    "C02:rows-unaltered": "all(view3(S().packed)[r, j, c] == F().packed[full()[r], c] "
+                          "for r in range(len(full())) for j in range(n_linear_samples) for c in range(5))",
+    "C06:all-logprobs-in-evaluation-order": "implies(return_all_logprobs, len(result[1]) == NE() and all(result[1][k] == ll(k) for k in range(NE())))",
+    "C10:only-handed-generator": "all(rng_event(k).gen == 'rng' for k in range(n_rng_events()))",
+    "C13:read-only-opens": "all_opens_read_only()",
+}
+FREJ_ENS_LNP = {
+    "C06:ln_prior-is-the-column-at-own-row": "is_array(S().cols['ln_prior']) and len(S().cols['ln_prior']) == len(full()) and "
+                                             "all(S().cols['ln_prior'][r] == F().lnp[full()[r]] for r in range(len(full())))",
+    "C06:ln_likelihood-own-row": "len(S().cols['ln_likelihood']) == len(full()) and "
+                                 "all(S().cols['ln_likelihood'][r] == LL(F().packed, full()[r]) for r in range(len(full())))",
+}
+_frej_params = {"joker_helper": helper_param, "prior_samples_file": file_param, "pool": pool_param, "rng": rng_param,
+                "n_linear_samples": "pos", "n_batches": "opaque"}
+
+
+def _frej_cases(lnp):
+    out = []
+    for npri in ("none", "int"):
+        for m in ("none", "int"):
+            for rand in ("false", "true"):
+                for ra in ("false", "true"):
+                    req = []
+                    if npri == "int":
+                        req.append("n_prior_samples >= 1")
+                    if m == "int":
+                        req.append("max_posterior_samples >= 0")
+                    out.append({"_name": f"npri={npri},max={m},rand={rand},all={ra}", "n_prior_samples": npri, "max_posterior_samples": m,
+                                "randomize_prior_order": rand, "return_all_logprobs": ra, "return_logprobs": "true" if lnp else "false",
+                                "_requires": req})
+    return out
+
+
+rejection_file = [
+    Contract(QM + "rejection_sample_helper", "C02", params=_frej_params, cases=_frej_cases(False),
+             requires=["prior_samples_file.nrows >= 1"], ensures=FREJ_ENS, defs=FREJ_DEFS),
+    Contract(QM + "rejection_sample_helper", "C06", params=_frej_params, cases=_frej_cases(True),
+             requires=["prior_samples_file.nrows >= 1"], ensures={**FREJ_ENS_LNP}, defs=FREJ_DEFS),
+]
+
+
+# ---- iterative_rejection_helper (file path) -----------------------------------------------------------------------
+FIT_DEFS = {
+    "F": ([], "prior_samples_file"),
+    "MP": ([], "F().nrows if max_prior_samples is None else max_prior_samples"),
+    "uu": ([], "rng_event(-2).value"),
+    "E": ([], "rng_event(-2).size"),
+    "ev": (["k"], "rng_event(0).value[k] if randomize_prior_order else k"),
+    "lls": ([], "ev_lls(F().packed, rng_event(0).value if randomize_prior_order else None, E())"),
+    "acc": (["k"], "exp_(lls()[k] - amax(lls())) > uu()[k]"),
+    "full": ([], "src_idx(result.rows, F().packed)"),
+    "pick": ([], "where_part(result.rows)"),
+    "first_batch": ([], "growth_factor * n_requested_samples if init_batch_size is None else init_batch_size"),
+}
+FIT_INV = {
+    "evaluated-prefix": "len(all_marg_lls) == start_idx",
+    "start-nonneg": "start_idx >= 0",
+    "next-batch-nonempty": "n_process >= 1",
+    "within-budget": "start_idx + n_process <= max_prior_samples",
+    "each-row-once": "all(all_marg_lls[p] == LL(prior_samples_file.packed, all_idx[p]) for p in range(start_idx))",
+}
+FIT_ENS = {
+    "C14:returns-samples": "result.cls_name == 'JokerSamples'",
+    "C14:shuffle-is-a-choice-without-replacement": "implies(randomize_prior_order, rng_event(0).kind == 'choice' and rng_event(0).gen == 'rng' "
+                                                   "and rng_event(0).size == MP() and rng_event(0).N == F().nrows)",
+    "C14:acceptance-draw": "rng_event(-2).kind == 'uniform' and rng_event(-2).gen == 'rng' and rng_event(-1).kind == 'mvn-batch'",
+    "C14:budget": "1 <= E() and E() <= MP() and MP() <= F().nrows",
+    "C14:returned-row-is-the-evaluated-one": "len(pick()) == len(full()) and all(full()[r] == ev(pick()[r]) for r in range(len(full())))",
+    "C14:accepted-only": "all(acc(pick()[r]) for r in range(len(pick())))",
+    "C14:in-range": "all(0 <= pick()[r] and pick()[r] < E() for r in range(len(pick())))",
+    "C14:evaluation-order": "all(pick()[r] < pick()[r + 1] for r in range(len(pick()) - 1))",
+    "C14:at-most-requested": "len(pick()) <= n_requested_samples",
+    "C14:first-accepted-kept": "all(implies(acc(k) and len(pick()) >= 1 and k <= pick()[len(pick()) - 1], "
+                               "0 <= wit(pick(), k) and wit(pick(), k) < len(pick()) and pick()[wit(pick(), k)] == k) for k in range(E()))",
+    "C14:all-accepted-kept-unless-truncated": "implies(len(pick()) < n_requested_samples, all(implies(acc(k), "
+                                              "0 <= wit(pick(), k) and wit(pick(), k) < len(pick()) and pick()[wit(pick(), k)] == k) for k in range(E())))",
+    "C14:rows-unaltered": "all(view3(result.packed)[r, j, c] == F().packed[full()[r], c] "
+                          "for r in range(len(full())) for j in range(n_linear_samples) for c in range(5))",
+    "C14:library-big-enough-on-return": "first_batch() <= MP()",
+    "C10:only-handed-generator": "all(rng_event(k).gen == 'rng' for k in range(n_rng_events()))",
+    "C13:read-only-opens": "all_opens_read_only()",
+}
+FIT_ENS_LNP = {
+    "C06:ln_prior-is-the-column-at-own-row": "is_array(result.cols['ln_prior']) and len(result.cols['ln_prior']) == len(full()) and "
+                                             "all(result.cols['ln_prior'][r] == F().lnp[full()[r]] for r in range(len(full())))",
+    "C06:ln_likelihood-own-row": "len(result.cols['ln_likelihood']) == len(full()) and "
+                                 "all(result.cols['ln_likelihood'][r] == LL(F().packed, full()[r]) for r in range(len(full())))",
+}
+_fit_params = {"joker_helper": helper_param, "prior_samples_file": file_param, "pool": pool_param, "rng": rng_param,
+               "n_requested_samples": "pos", "growth_factor": "pos", "n_linear_samples": "pos", "n_batches": "opaque"}
+
+
+def _fit_cases(lnp):
+    out = []
+    for mp in ("none", "int"):
+        for init in ("none", "pos"):
+            for rand in ("false", "true"):
+                out.append({"_name": f"max_prior={mp},init={init},rand={rand}", "max_prior_samples": mp, "init_batch_size": init,
+                            "randomize_prior_order": rand, "return_logprobs": "true" if lnp else "false",
+                            "_requires": ["max_prior_samples <= prior_samples_file.nrows"] if mp == "int" else []})
+    return out
+
+
+iterative_file = [
+    Contract(QM + "iterative_rejection_helper", "C14", params=_fit_params, cases=_fit_cases(False),
+             requires=["prior_samples_file.nrows >= 1"], ensures=FIT_ENS, invariants={1: FIT_INV}, defs=FIT_DEFS),
+    Contract(QM + "iterative_rejection_helper", "C06", params=_fit_params, cases=_fit_cases(True),
+             requires=["prior_samples_file.nrows >= 1"], ensures=FIT_ENS_LNP, invariants={1: FIT_INV}, defs=FIT_DEFS),
 ]
